@@ -68,6 +68,9 @@ def run(ctx):
             if nc:
                 d4 = json.loads(json.dumps(d)); d4["crash"] = []; d4["ws"] = list(range(nc))
                 d4["timers"] = {"keepalive": 1, "websocket": 60, "grace_ms": 1700}; scns.append(d4)
+    # the in-flight counter under a storm of sessions that end while others are accepted (two threads on the real WaitGroup)
+    for k in range(2 if q else 6):
+        scns.append({"mode": "e2e", "steps": [["S", "Signal"]], "model": {"returned": True}, "storm": {"rounds": 20 if q else 60, "per": 100000 if q else 300000}})
     for d in scns:
         d.setdefault("crash", []); d.setdefault("ws", [])
     for n, d in enumerate(scns):
